@@ -184,6 +184,52 @@ def endpoints():
     return found
 
 
+def make_pem(name):
+    '''a self-signed client certificate (PEM text)'''
+    import datetime
+    from cryptography import x509
+    from cryptography.x509.oid import NameOID
+    from cryptography.hazmat.primitives import hashes, serialization
+    from cryptography.hazmat.primitives.asymmetric import ec
+    k = ec.generate_private_key(ec.SECP256R1())
+    n = x509.Name([x509.NameAttribute(NameOID.COMMON_NAME, name)])
+    c = x509.CertificateBuilder().subject_name(n).issuer_name(n).public_key(k.public_key()).serial_number(1) \
+        .not_valid_before(datetime.datetime(2020, 1, 1)).not_valid_after(datetime.datetime(2040, 1, 1)) \
+        .sign(k, hashes.SHA256())
+    return c.public_bytes(serialization.Encoding.PEM).decode()
+
+
+# guest key directory layouts loaded through the real security._tls_initialize
+# (documented pattern: dawgie.public.pem*); value = client certificates present
+KEY_DIRS = {
+    'dir:plain': (['dawgie.public.pem'], True),
+    'dir:suffixed': (['dawgie.public.pem.alice'], True),
+    'dir:two-suffixed+noise': (['dawgie.public.pem.alice', 'dawgie.public.pem_bob', 'README'], True),
+    'dir:noise-only': (['README', 'dawgie.public.txt'], False),
+    'dir:empty': ([], False),
+}
+
+
+def configure(conf, scratch):
+    '''returns True when client certificates are configured'''
+    import dawgie.security as sec
+    import shutil
+    if conf in (False, True):
+        del sec._certs[:]
+        if conf:
+            sec._certs.append('a-client-certificate')
+        return conf
+    files, present = KEY_DIRS[conf]
+    d = os.path.join(scratch, 'keys-' + conf.replace(':', '-'))
+    shutil.rmtree(d, ignore_errors=True)
+    os.makedirs(d)
+    for fn in files:
+        with open(os.path.join(d, fn), 'wt', encoding='utf-8') as f:
+            f.write(make_pem(fn) if fn.startswith('dawgie.public.pem') else 'not a certificate')
+    sec._tls_initialize(path=d)
+    return present
+
+
 def part_access(ctx):
     import dawgie.context
     import dawgie.security as sec
@@ -202,10 +248,12 @@ def part_access(ctx):
     methods = {'GET': 'render_GET', 'POST': 'render_POST', 'PUT': 'render_PUT', 'DELETE': 'render_DELETE'}
     saved_hook = dawgie.context.sanction_override
     saved_certs = list(sec._certs)
+    saved_me, saved_sys = dict(sec._myself), dict(sec._system)
     verdicts = set()
     try:
         for uri, res in sorted(eps.items()):
             ran = []
+            last_conf = [None, None]
             real = res._DynamicContent__fnc
             registered = res._DynamicContent__uri
             sens = registered.rstrip('/').split('/')[-1] in SENSITIVE
@@ -217,11 +265,13 @@ def part_access(ctx):
 
             res._DynamicContent__fnc = Stub()
             try:
-                for certs_conf, presented, (hname, hook), (mname, meth) in itertools.product(
-                        (False, True), (None, 'CERT', 'NO-TLS'), hooks.items(), methods.items()):
-                    del sec._certs[:]
-                    if certs_conf:
-                        sec._certs.append('a-client-certificate')
+                for conf, presented, (hname, hook), (mname, meth) in itertools.product(
+                        (False, True) + tuple(KEY_DIRS), (None, 'CERT', 'NO-TLS'), hooks.items(), methods.items()):
+                    if conf not in (False, True) and hname not in ('default',):
+                        continue
+                    if conf != last_conf[0]:
+                        last_conf[:] = [conf, configure(conf, common.scratch_root())]
+                    certs_conf = last_conf[1]
                     dawgie.context.sanction_override = hook
                     del ran[:]
                     req = FakeRequest(None if presented != 'CERT' else object(), presented != 'NO-TLS')
@@ -235,7 +285,7 @@ def part_access(ctx):
                     invoked = bool(ran)
                     anonymous = presented != 'CERT'
                     verdicts.add((registered, certs_conf, anonymous, hname, invoked))
-                    case = {'uri': registered, 'method': mname, 'certs_configured': certs_conf,
+                    case = {'uri': registered, 'method': mname, 'certs_configured': certs_conf, 'configuration': str(conf),
                             'cert_presented': presented, 'hook': hname}
                     if hname in ('raises', 'unresolvable', 'false') and invoked:
                         ctx.violation(f'C19/access/hook-{hname}-but-handler-ran',
@@ -256,6 +306,10 @@ def part_access(ctx):
     finally:
         dawgie.context.sanction_override = saved_hook
         sec._certs[:] = saved_certs
+        sec._myself.clear()
+        sec._myself.update(saved_me)
+        sec._system.clear()
+        sec._system.update(saved_sys)
     return len(verdicts), len(eps)
 
 
